@@ -582,27 +582,26 @@ func (p *Pollard) WriteTo(w io.Writer) (int64, error) {
 	var buf [8]byte
 	binary.LittleEndian.PutUint64(buf[:], p.NumLeaves)
 	bytes, err := w.Write(buf[:])
+	totalBytes += int64(bytes)
 	if err != nil {
 		return totalBytes, err
 	}
-	totalBytes += int64(bytes)
 
 	// Then write the number of dels.
 	binary.LittleEndian.PutUint64(buf[:], p.NumDels)
 	bytes, err = w.Write(buf[:])
+	totalBytes += int64(bytes)
 	if err != nil {
 		return totalBytes, err
 	}
-	totalBytes += int64(bytes)
 
 	// Then write the entire pollard to the writer.
 	for _, root := range p.Roots {
 		bytes, err := writeOne(root, w)
+		totalBytes += bytes
 		if err != nil {
 			return totalBytes, err
 		}
-
-		totalBytes += bytes
 	}
 
 	return totalBytes, nil
@@ -615,10 +614,10 @@ func writeOne(n *polNode, w io.Writer) (int64, error) {
 		return totalBytes, nil
 	}
 	wroteBytes, err := w.Write(n.data[:])
+	totalBytes += int64(wroteBytes)
 	if err != nil {
 		return totalBytes, err
 	}
-	totalBytes += int64(wroteBytes)
 
 	// Mark leaf-ness. If we don't have any children, we're a leaf.
 	lChild, rChild, err := n.getChildren()
@@ -627,16 +626,16 @@ func writeOne(n *polNode, w io.Writer) (int64, error) {
 	}
 	if lChild == nil && rChild == nil {
 		wroteBytes, err := w.Write([]byte{1})
+		totalBytes += int64(wroteBytes)
 		if err != nil {
 			return totalBytes, err
 		}
-		totalBytes += int64(wroteBytes)
 	} else {
 		wroteBytes, err := w.Write([]byte{0})
+		totalBytes += int64(wroteBytes)
 		if err != nil {
 			return totalBytes, err
 		}
-		totalBytes += int64(wroteBytes)
 	}
 
 	// If nieces are present, then call writeOne on those nieces as well and
@@ -644,28 +643,28 @@ func writeOne(n *polNode, w io.Writer) (int64, error) {
 	// missing and move on.
 	if n.lNiece != nil && n.rNiece != nil {
 		wroteBytes, err := w.Write([]byte{1})
+		totalBytes += int64(wroteBytes)
 		if err != nil {
 			return totalBytes, err
 		}
-		totalBytes += int64(wroteBytes)
 
 		leftBytes, err := writeOne(n.lNiece, w)
+		totalBytes += leftBytes
 		if err != nil {
 			return totalBytes, err
 		}
-		totalBytes += leftBytes
 
 		rightBytes, err := writeOne(n.rNiece, w)
+		totalBytes += rightBytes
 		if err != nil {
 			return totalBytes, err
 		}
-		totalBytes += rightBytes
 	} else {
 		wroteBytes, err := w.Write([]byte{0})
+		totalBytes += int64(wroteBytes)
 		if err != nil {
 			return totalBytes, err
 		}
-		totalBytes += int64(wroteBytes)
 	}
 
 	return totalBytes, nil
@@ -679,18 +678,18 @@ func RestorePollardFrom(r io.Reader) (int64, *Pollard, error) {
 	// Read numleaves.
 	var buf [8]byte
 	readBytes, err := io.ReadFull(r, buf[:])
+	totalBytes += int64(readBytes)
 	if err != nil {
 		return totalBytes, nil, err
 	}
-	totalBytes += int64(readBytes)
 	p.NumLeaves = binary.LittleEndian.Uint64(buf[:])
 
 	// Read NumDels.
 	readBytes, err = io.ReadFull(r, buf[:])
+	totalBytes += int64(readBytes)
 	if err != nil {
 		return totalBytes, nil, err
 	}
-	totalBytes += int64(readBytes)
 	p.NumDels = binary.LittleEndian.Uint64(buf[:])
 
 	// For each of the roots that we have, initialize the polnodes
@@ -699,11 +698,10 @@ func RestorePollardFrom(r io.Reader) (int64, *Pollard, error) {
 	for i := range p.Roots {
 		p.Roots[i] = new(polNode)
 		readBytes, err := p.readOne(p.Roots[i], r)
+		totalBytes += readBytes
 		if err != nil {
 			return totalBytes, nil, err
 		}
-
-		totalBytes += readBytes
 	}
 
 	// Sanity check.
@@ -722,6 +720,7 @@ func (p *Pollard) readOne(n *polNode, r io.Reader) (int64, error) {
 	// Read from the reader. If we're at EOF, we've finished restoring
 	// the pollard.
 	readBytes, err := io.ReadFull(r, n.data[:])
+	totalBytes += int64(readBytes)
 	if err != nil {
 		if err == io.EOF {
 			// The number of nodes is given by the leaf count and the
@@ -730,16 +729,15 @@ func (p *Pollard) readOne(n *polNode, r io.Reader) (int64, error) {
 		}
 		return totalBytes, err
 	}
-	totalBytes += int64(readBytes)
 
 	// Read leaf-ness. If this node is a leaf, then we need to store it in
 	// the map.
 	var buf [1]byte
 	readBytes, err = io.ReadFull(r, buf[:])
+	totalBytes += int64(readBytes)
 	if err != nil {
 		return totalBytes, err
 	}
-	totalBytes += int64(readBytes)
 	if buf[0] == 1 {
 		if n.data != empty {
 			p.NodeMap[n.data.mini()] = n
@@ -749,25 +747,25 @@ func (p *Pollard) readOne(n *polNode, r io.Reader) (int64, error) {
 	// Read if the node has nieces. If the node does have nieces, then we call readOne
 	// for the nieces as well.
 	readBytes, err = io.ReadFull(r, buf[:])
+	totalBytes += int64(readBytes)
 	if err != nil {
 		return totalBytes, err
 	}
-	totalBytes += int64(readBytes)
 
 	if buf[0] == 1 {
 		n.lNiece = &polNode{aunt: n}
 		leftBytes, err := p.readOne(n.lNiece, r)
+		totalBytes += leftBytes
 		if err != nil {
 			return totalBytes, err
 		}
-		totalBytes += leftBytes
 
 		n.rNiece = &polNode{aunt: n}
 		rightBytes, err := p.readOne(n.rNiece, r)
+		totalBytes += rightBytes
 		if err != nil {
 			return totalBytes, err
 		}
-		totalBytes += rightBytes
 	}
 
 	return totalBytes, nil
